@@ -1060,6 +1060,18 @@ static void chain_sig(int sig)
     if (g_chain && g_chain->req_level == g_chain_level) { prctl(PR_SET_NAME, g_chain->name, 0, 0, 0); g_chain->req_level = -1; g_chain->ack = 1; }
 }
 
+/* after op g (own pid namespace, 7-digit pid) the levels of a chain get consecutive 7-digit pids too */
+static long g_bigpid_next;
+static pid_t chain_fork(void)
+{
+    if (!g_bigpid_next) return fork();
+    struct clone_args ca; memset(&ca, 0, sizeof ca);
+    pid_t tid = (pid_t) ++g_bigpid_next;
+    ca.exit_signal = SIGCHLD; ca.set_tid = (uint64_t) (uintptr_t) &tid; ca.set_tid_size = 1;
+    long r = syscall(SYS_clone3, &ca, sizeof ca);
+    return (pid_t) r;
+}
+
 static void op_chain(op_t *ops, int nops, int idx)
 {
     /* args: names...  -- every level forks; level i sets its name then forks the next; the leaf runs the rest */
@@ -1075,7 +1087,7 @@ static void op_chain(op_t *ops, int nops, int idx)
             g_chain_level = (int) i; g_chain->pid[i] = getpid();
             struct sigaction sa; memset(&sa, 0, sizeof sa); sa.sa_handler = chain_sig; sigaction(SIGUSR1, &sa, NULL);
         }
-        pid_t p = fork();
+        pid_t p = chain_fork();
         if (p < 0) { ev_error("fork chain"); _exit(94); }
         if (p > 0) {
             int st;
@@ -1160,6 +1172,7 @@ static void run_ops(op_t *ops, int nops)
                 _exit(WIFEXITED(mainst) ? WEXITSTATUS(mainst) : 99);
             }
             prctl(PR_SET_PDEATHSIG, SIGKILL);
+            g_bigpid_next = want;
             break; }
         case 'b': { /* background job: the rest of the scenario runs in a child that sits in a BACKGROUND process group of the controlling
                        terminal (like `cmd &` under a job-control shell); the parent stays its foreground session leader and watches */
